@@ -8,9 +8,9 @@
    Both loops are "for cond" loops: gen_QuantileCI takes fuel.  The greedy loop is tied to the
    model's own fuelled [loop] iteration for iteration (go_while needs one unit more: the model
    tests the guard once more at fuel 0).  The widening loop of the normal branch
-   (for cdf(l,r) < confidence && (l > 0 || r < n+1) { l--; r++ }) is the model's [widen]
-   (Model/QuantileCI.v, D19): for every fuel above widen_fuel = max(l, n+1-r) the generated code
-   makes exactly the model's steps (widen_loop below + Proofs.QuantileCI.widen_spec). *)
+   (for cdf(l,r) < confidence && ... { l--; r++ }) is in the model too ([widen], Model/QuantileCI.v); the generated
+   loop is tied to it iteration for iteration (while_widen), so the tie of that branch holds WITH widenings:
+   with fuel beyond the model's bound widen_fuel the generated code returns exactly qci_normal. *)
 From Coq Require Import ZArith NArith QArith Qround Qabs List Bool Lia Lqa.
 From MM Require Import Base.Num Base.GoSem Model.QuantileCI Proofs.TicksLinear Proofs.QuantileCI.
 From MMGen Require Import Gen_stats_types Gen_stats_quantileci.
@@ -164,90 +164,101 @@ Proof.
   - apply Qplus_lt_r. reflexivity.
 Qed.
 
-(* the widening loop  for cdf(l, r) < confidence && (l > 0 || r < n+1) { l--; r++ }  over abstract
-   condition / body: after the k steps of the model's [widen] the guard is false *)
-Section Widen.
-  Variable cdfband : Z -> Z -> Q.
-  Variables (n : Z) (c : Q).
-  Variable cond : Z * Z -> bool.
-  Variable body : Z * Z -> Z * Z.
-  Hypothesis cond_ok : forall l r, cond (l, r) = widen_more cdfband n c l r.
-  Hypothesis body_ok : forall l r, (- 9223372036854775808 < l - 1)%Z -> (l < 9223372036854775808)%Z -> (- 9223372036854775808 < r)%Z -> (r + 1 < 9223372036854775808)%Z -> body (l, r) = ((l - 1)%Z, (r + 1)%Z).
+(* the widening loop (quantileci.go: for cdf(l, r) < confidence && (l > 0 || r < n+1) { l--; r++ }) against the
+   model's [widen]: with a guard that is the model's [widen_more] and a body that is (l-1, r+1) on small
+   integers, and when the model's run has really stopped (its guard is false at its result), the generated
+   loop with one unit more fuel returns the model's result *)
+Definition small59 (z : Z) : Prop := (- 2 ^ 59 < z < 2 ^ 59)%Z.
+Ltac z59 := unfold small62, small60, small59 in *; zpow; change (2 ^ 61)%Z with 2305843009213693952%Z in *;
+            change (2 ^ 60)%Z with 1152921504606846976%Z in *; change (2 ^ 59)%Z with 576460752303423488%Z in *; lia.
 
-  Lemma widen_loop : forall (k : nat) l r, (l < 9223372036854775808)%Z -> (- 9223372036854775808 < r)%Z -> (- 9223372036854775808 < l - Z.of_nat k)%Z -> (r + Z.of_nat k < 9223372036854775808)%Z ->
-    (forall j, (0 <= j < Z.of_nat k)%Z -> widen_more cdfband n c (l - j) (r + j) = true) ->
-    widen_more cdfband n c (l - Z.of_nat k) (r + Z.of_nat k) = false ->
-    forall F, (k < F)%nat -> go_while F cond body (l, r) = Some ((l - Z.of_nat k)%Z, (r + Z.of_nat k)%Z).
-  Proof.
-    induction k as [|k IH]; intros l r Hl' Hr' Hl Hr Hj Hk F HF; (destruct F as [|F]; [lia|]); rewrite go_while_S, cond_ok.
-    - cbn [Z.of_nat] in *. rewrite Z.sub_0_r, Z.add_0_r in *. rewrite Hk. reflexivity.
-    - pose proof (Hj 0%Z ltac:(lia)) as H0. rewrite Z.sub_0_r, Z.add_0_r in H0. rewrite H0.
-      rewrite body_ok by lia.
-      replace (l - Z.of_nat (S k))%Z with (l - 1 - Z.of_nat k)%Z in * by lia.
-      replace (r + Z.of_nat (S k))%Z with (r + 1 + Z.of_nat k)%Z in * by lia.
-      apply IH; try lia; [|exact Hk].
-      intros j Hjj. replace (l - 1 - j)%Z with (l - (j + 1))%Z by lia. replace (r + 1 + j)%Z with (r + (j + 1))%Z by lia.
-      apply Hj. lia.
-  Qed.
-End Widen.
+Lemma widen_shape (B : Z -> Z -> Q) n c : forall f l r,
+  exists k, (0 <= k <= Z.of_nat f)%Z /\ widen B f n c l r = ((l - k)%Z, (r + k)%Z).
+Proof.
+  induction f as [|f IH]; intros l r.
+  - exists 0%Z. cbn [widen]. rewrite Z.sub_0_r, Z.add_0_r. split; [lia | reflexivity].
+  - cbn [widen]. destruct (widen_more B n c l r).
+    + destruct (IH (l - 1)%Z (r + 1)%Z) as (k & Hk & E). exists (k + 1)%Z. split; [lia|].
+      rewrite E. f_equal; lia.
+    + exists 0%Z. rewrite Z.sub_0_r, Z.add_0_r. split; [lia | reflexivity].
+Qed.
 
-Theorem tie_QuantileCI_normal : forall ncdff ninvcdff normapproxf pmff thresholdv (F : nat) (n : Z) (q c : Q),
-  small62 n -> c < 1 -> (thresholdv < n)%Z ->
+Lemma while_widen (B : Z -> Z -> Q) n c (cnd : Z * Z -> bool) (bdy : Z * Z -> Z * Z) :
+  (forall l r, cnd (l, r) = widen_more B n c l r) ->
+  (forall l r, small62 l -> small62 r -> bdy (l, r) = ((l - 1)%Z, (r + 1)%Z)) ->
+  forall f l r, (Z.abs l + Z.of_nat f < 2 ^ 61)%Z -> (Z.abs r + Z.of_nat f < 2 ^ 61)%Z ->
+  widen_more B n c (fst (widen B f n c l r)) (snd (widen B f n c l r)) = false ->
+  go_while (S f) cnd bdy (l, r) = Some (widen B f n c l r).
+Proof.
+  intros Hc Hb. induction f as [|f IH]; intros l r Hl Hr Hstop.
+  - cbn [widen fst snd] in *. rewrite go_while_S, Hc, Hstop. reflexivity.
+  - rewrite go_while_S, Hc. cbn [widen] in *. destruct (widen_more B n c l r) eqn:E; [|reflexivity].
+    rewrite Hb by (unfold small62; zpow; change (2 ^ 61)%Z with 2305843009213693952%Z in *; lia).
+    apply IH; [zpow; change (2 ^ 61)%Z with 2305843009213693952%Z in *; lia
+              | zpow; change (2 ^ 61)%Z with 2305843009213693952%Z in *; lia | exact Hstop].
+Qed.
+
+(* the whole normal branch, widening loop included: with fuel beyond the model's own bound
+   [widen_fuel] = max(l, n+1-r) the generated code returns exactly the model's [qci_normal] — the object of
+   C11_normal_band, C11_normal_conf_ge_c, C11_normal_orders, C11_normal_no_widening *)
+Theorem tie_QuantileCI_normal : forall ncdff ninvcdff normapproxf pmff thresholdv (f : nat) (n : Z) (q c : Q),
+  small59 n -> c < 1 -> (thresholdv < n)%Z ->
   let norm := normapproxf (mk_BinomialDist n q) in
   let l1 := ninvcdff norm (qci_alpha c) in
   let r1 := (2 # 1) * NormalDist_Mu norm - l1 in
-  small60 (Qfloor (l1 - (1 # 2))) -> small60 (Qceiling (r1 - (1 # 2))) ->
+  small59 (Qfloor (l1 - (1 # 2))) -> small59 (Qceiling (r1 - (1 # 2))) ->
   let l0 := (Qfloor (l1 - (1 # 2)) + 1)%Z in
   let r := (Qceiling (r1 - (1 # 2)) + 1)%Z in
   let l := if (r <=? l0)%Z then (r - 1)%Z else l0 in
-  (* enough fuel for the widening loop (at most max(l, n+1-r) trips, Proofs.QuantileCI.widen_spec) *)
-  (widen_fuel n l r < F)%nat ->
-  gen_QuantileCI ncdff ninvcdff normapproxf pmff thresholdv F n q c =
+  (widen_fuel n l r <= f)%nat ->
+  gen_QuantileCI ncdff ninvcdff normapproxf pmff thresholdv (S f) n q c =
   Some (to_res q n (qci_normal (band_of ncdff norm) n c l1 r1)).
 Proof.
-  intros ncdff ninvcdff normapproxf pmff thresholdv F n q c Hn Hc Hth norm l1 r1 Hl1 Hr1 l0 r l HF.
+  intros ncdff ninvcdff normapproxf pmff thresholdv f n q c Hn Hc Hth norm l1 r1 Hl1 Hr1 l0 r l Hf.
   unfold gen_QuantileCI. cbv zeta. rproj.
   apply Qleb_niff in Hc. rewrite Hc. destruct (Z.leb_spec n thresholdv) as [C|_]; [lia|].
   fold norm. change (if Qltb (1 # 2) (((1 # 1) - c) / (2 # 1)) then 1 # 2 else ((1 # 1) - c) / (2 # 1)) with (qci_alpha c).
   fold l1. fold r1. unfold go_floor, go_ceil. rewrite !go_f2i_inject, !floor_half_int.
-  rewrite !sadd1 by z62. fold l0. fold r.
-  assert (Hl0 : small62 l0) by (unfold l0; z62). assert (Hr : small62 r) by (unfold r; z62).
-  rewrite (ssub1 r) by exact Hr.
+  rewrite !sadd1 by z59. fold l0. fold r.
+  assert (Hl0 : small60 l0) by (unfold l0; z59). assert (Hr : small60 r) by (unfold r; z59).
+  rewrite (ssub1 r) by z59.
   change (if (r <=? l0)%Z then (r - 1)%Z else l0) with l.
-  assert (Hl : small62 l) by (unfold l; destruct (r <=? l0)%Z; z62).
-  (* the widening loop = the model's widen *)
-  destruct (Proofs.QuantileCI.widen_spec (band_of ncdff norm) n c (widen_fuel n l r) l r ltac:(unfold widen_fuel; lia))
-    as (k & Hk & Ew & Ek & Ej).
-  assert (Hkb : (k <= Z.of_nat (widen_fuel n l r))%Z).
-  { destruct (Z.le_gt_cases k (Z.of_nat (widen_fuel n l r))) as [A|A]; [exact A|exfalso].
-    (* after widen_fuel steps the guard is false, but Ej says it is true there *)
-    pose proof (Ej (Z.of_nat (widen_fuel n l r)) ltac:(lia)) as Et. unfold widen_more in Et.
-    apply andb_prop in Et as [_ B]. unfold widen_fuel in B. apply orb_prop in B as [B|B]; apply Z.ltb_lt in B; lia. }
-  assert (Hfb : (Z.of_nat (widen_fuel n l r) < 4611686018427387904)%Z) by (unfold widen_fuel; z62).
-  match goal with |- context [go_while F ?cnd ?bdy (l, r)] =>
-    rewrite (widen_loop (band_of ncdff norm) n c cnd bdy) with (k := Z.to_nat k)
-  end.
-  - rewrite Z2Nat.id by exact Hk. unfold qci_normal. cbv zeta. fold l0. fold r.
-    change (if (r <=? l0)%Z then (r - 1)%Z else l0) with l. rewrite Ew.
-    set (lw := (l - k)%Z). set (rw := (r + k)%Z).
-    assert (Hrw : (- 4611686018427387904 < rw < 9223372036854775807)%Z) by (unfold rw; z62).
-    replace (go_ssub 64 rw 1) with (rw - 1)%Z by (symmetry; unfold go_ssub; apply wrap_s64_small'; lia).
-    change (Qle_bool c (band_of ncdff norm lw (rw - 1))) with (Qleb c (band_of ncdff norm lw (rw - 1))).
-    repeat match goal with |- context [ncdff norm (go_i2f ?b - (1 # 2)) - ncdff norm (go_i2f ?a - (1 # 2))] =>
-      change (ncdff norm (go_i2f b - (1 # 2)) - ncdff norm (go_i2f a - (1 # 2))) with (band_of ncdff norm a b) end.
-    destruct ((lw <? rw - 1)%Z && Qleb c (band_of ncdff norm lw (rw - 1)) && Qltb (band_of ncdff norm lw (rw - 1)) (band_of ncdff norm lw rw));
-      cbv iota beta;
-      match goal with |- context [(lw <=? 0)%Z && (n + 1 <=? ?rr)%Z] => destruct ((lw <=? 0)%Z && (n + 1 <=? rr)%Z) end;
-      unfold to_res, clampR; rproj; reflexivity.
-  - intros a b. cbv beta iota. unfold widen_more, band_of. rewrite ?(sadd1 n) by exact Hn. reflexivity.
-  - intros a b Ha Ha' Hb' Hb. cbv beta iota. unfold go_ssub, go_sadd. rewrite !wrap_s64_small' by lia. reflexivity.
-  - z62.
-  - z62.
-  - rewrite Z2Nat.id by exact Hk. z62.
-  - rewrite Z2Nat.id by exact Hk. z62.
-  - rewrite Z2Nat.id by exact Hk. exact Ej.
-  - rewrite Z2Nat.id by exact Hk. exact Ek.
-  - lia.
+  assert (Hl : small60 l) by (unfold l; destruct (r <=? l0)%Z; z59).
+  set (B := band_of ncdff norm).
+  set (f0 := widen_fuel n l r) in *.
+  assert (Bl : (- 2 ^ 59 <= l <= 2 ^ 59)%Z) by (unfold l, l0, r; destruct (_ <=? _)%Z; z59).
+  assert (Br : (- 2 ^ 59 <= r <= 2 ^ 59)%Z) by (unfold r; z59).
+  assert (Hf0 : (Z.of_nat f0 <= 2 ^ 60 + 1)%Z).
+  { unfold f0, widen_fuel. z59. }
+  (* the model's run stops within its own fuel *)
+  destruct (Proofs.QuantileCI.widen_spec B n c f0 l r) as (k & Hk & Ek & Estop & _).
+  { unfold f0, widen_fuel. lia. }
+  destruct (widen_shape B n c f0 l r) as (k' & Hk' & Ek'). rewrite Ek in Ek'. injection Ek' as E1 _.
+  assert (k' = k) by lia. subst k'.
+  (* the generated loop *)
+  match goal with |- context [go_while (S f) ?cnd ?bdy (l, r)] =>
+    assert (Hw : go_while (S f) cnd bdy (l, r) = Some (widen B f0 n c l r)) end.
+  { apply (go_while_mono _ _ (S f0) (S f)); [lia|].
+    apply (while_widen B n c).
+    - intros a b. cbv beta iota. rewrite ?(sadd1 n) by z59. reflexivity.
+    - intros a b Ha Hb. cbv beta iota zeta. rewrite ssub1, sadd1 by assumption. reflexivity.
+    - z59.
+    - z59.
+    - rewrite Ek. cbn [fst snd]. exact Estop. }
+  rewrite Hw, Ek. clear Hw.
+  set (lw := (l - k)%Z). set (rw := (r + k)%Z).
+  assert (Hlw : small62 lw) by (unfold lw; z59). assert (Hrw : small62 rw) by (unfold rw; z59).
+  rewrite (ssub1 rw) by exact Hrw. rewrite ?(sadd1 n) by z59.
+  unfold qci_normal. cbv zeta. fold l0. fold r.
+  change (if (r <=? l0)%Z then (r - 1)%Z else l0) with l.
+  fold B. fold f0. rewrite Ek. fold lw. fold rw.
+  change (Qle_bool c (B lw (rw - 1)%Z)) with (Qleb c (B lw (rw - 1)%Z)).
+  repeat match goal with |- context [ncdff norm (go_i2f ?b - (1 # 2)) - ncdff norm (go_i2f ?a - (1 # 2))] =>
+    change (ncdff norm (go_i2f b - (1 # 2)) - ncdff norm (go_i2f a - (1 # 2))) with (B a b) end.
+  destruct ((lw <? rw - 1)%Z && Qleb c (B lw (rw - 1)%Z) && Qltb (B lw (rw - 1)%Z) (B lw rw));
+    cbv iota beta;
+    match goal with |- context [(lw <=? 0)%Z && (n + 1 <=? ?rr)%Z] => destruct ((lw <=? 0)%Z && (n + 1 <=? rr)%Z) end;
+    unfold to_res, clampR; rproj; reflexivity.
 Qed.
 
 (* ---------- QuantileCIResult.SampleCI (quantileci.go:46-71) ---------- *)
